@@ -138,6 +138,56 @@ def run(rep, tier, rng):
             rep.violation("instruction %s: documented '%s' but implementation gives '%s'" % (nm, norm_spec(y)[:80], norm_impl(x)[:80]),
                           {"kind": "search", "family": "masm", "case": m, "spec_case": sp, "impl": x, "spec": y, "instr": nm})
             found = True
+    # ---- documented semantics (instruction reference) of the forms that have neither a theorem nor a Coq
+    #      spec function: immediate shifts/rotations, popcnt, exp forms, word comparison on structured operands ----
+    ocases, owant, onames = [], [], []
+    rot = lambda a, n: ((a << n) | (a >> (32 - n))) % U32 if n else a
+    DOC = {"u32shl": lambda a, n: (a << n) % U32, "u32shr": lambda a, n: a >> n,
+           "u32rotl": rot, "u32rotr": lambda a, n: rot(a, (32 - n) % 32)}
+    ro = r.fork("doc")
+    u32vals = [0, 1, 2, 3, 0x80000000, 0xffffffff, 0x7fffffff, 0xaaaaaaaa, 0x55555555, 0x00010000, 0x0000ffff]
+    for nm, f in DOC.items():
+        for n_ in range(32):
+            for a_ in [ro.choice(u32vals), ro.below(U32)]:
+                for form in ("%s.%d" % (nm, n_), None):
+                    st = ([a_] if form else [n_, a_]) + [7, 8, 9]
+                    ocases.append("100000 | %s | | | | begin %s end" % (" ".join(map(str, st)), form or nm))
+                    owant.append([f(a_, n_), 7, 8, 9])
+                    onames.append(form or nm)
+    for a_ in u32vals + [ro.below(U32) for _ in range(per)]:
+        ocases.append("100000 | %d 7 8 9 | | | | begin u32popcnt end" % a_)
+        owant.append([bin(a_).count("1"), 7, 8, 9])
+        onames.append("u32popcnt")
+    for _ in range(per * 3):
+        a_ = ro.choice([0, 1, 2, 3, P - 1, P - 2, ro.below(P)])
+        b_ = ro.choice([0, 1, 2, 3, 7, 8, 63, 64, 2**16, 2**32 - 1, 2**32, 2**63, P - 1, ro.below(P), ro.below(2**20)])
+        bits = max(1, b_.bit_length())
+        forms = ["exp", "exp.%d" % b_] + ["exp.u%d" % k for k in sorted({bits, min(63, bits + 1), 63}) if bits <= k <= 63]
+        for form in forms:
+            st = ([a_] if form.startswith("exp.") and not form.startswith("exp.u") else [b_, a_]) + [7, 8, 9]
+            ocases.append("100000 | %s | | | | begin %s end" % (" ".join(map(str, st)), form))
+            owant.append([pow(a_, b_, P), 7, 8, 9])
+            onames.append(form.split(".")[0] + ("." + form.split(".")[1][0] if "." in form else ""))
+    for _ in range(per * 2):
+        w = [ro.choice([0, 1, P - 1, ro.below(P)]) for _ in range(4)]
+        for pos in [None, 0, 1, 2, 3]:
+            w2 = list(w)
+            if pos is not None:
+                w2[pos] = (w2[pos] + ro.choice([1, P - 1, 2**32])) % P
+            for nm in ("eqw", "assert_eqw"):
+                ocases.append("100000 | %s 7 8 9 | | | | begin %s end" % (" ".join(map(str, w2 + w)), nm))
+                owant.append(([int(w2 == w)] + w2 + w + [7, 8, 9]) if nm == "eqw" else ([7, 8, 9] if w2 == w else None))
+                onames.append(nm)
+    for c, w, nm, x in zip(ocases, owant, onames, common.run_impl("masm", ocases, tag="c05d")):
+        dist["doc:%s:%s" % (nm.split(".")[0], x.split()[0])] += 1
+        got = None
+        if x.startswith("OK"):
+            mm = re.search(r"stack=([\d,]+)", x)
+            got = [int(v) for v in mm.group(1).split(",")][:len(w)] if (mm and w is not None) else "completed"
+        if x.startswith("PANIC") or (w is None and x.startswith("OK")) or (w is not None and got != w):
+            rep.violation("instruction %s: the instruction reference gives %s, the implementation %s" % (nm, w, x[:120]),
+                          {"kind": "search", "family": "masm", "case": c, "impl": x[:400], "want": w, "instr": nm})
+            found = True
     base.report_proof_failure(rep, "C05", pr, found)
     rep.coverage.update({
         "evaluations": len(ops_cases) + len(masm),
@@ -147,7 +197,7 @@ def run(rep, tier, rng):
         "distribution": dict(dist),
         "instruction_forms_with_theorem": len(SPEC_NAMES),
     })
-    rep.assumptions = ["instruction forms without a theorem yet (lt/lte/gt/gte, shifts/rotations, popcnt, pow2/exp, ext2*, u32 comparisons/min/max, eqw, xor, is_odd, neq, u32not/u32or, u32overflowing_sub) are covered by the op-level correspondence only",
+    rep.assumptions = ["instruction forms without a theorem (immediate shifts/rotations, u32popcnt, exp and its immediate forms) are covered by the op-level correspondence and by a documented-semantics oracle only",
                        "documented-undefined cases (unchecked u32 ops on operands >= 2^32) are excluded by the theorems' guards",
                        "debug-build arithmetic overflow checks are not exercised (release harness)"]
 
